@@ -50,6 +50,9 @@ def create_configs(tier):
     add(SHAPE, 'hotfix/4.3.17', tags=['4.3.17.0', '4.3.17'])
     add(SHAPE, 'release/4.3')
     add(SHAPE, 'feature/x')
+    for c in (dict(C[0]), dict(C[2])):
+        c['reject'] = True
+        C.append(c)
     if tier == 'thorough':
         add(SHAPE_S, 'development/5.2', tags=['5.1.3'])
         add(SHAPE_S, 'stabilization/5.1.5', tags=['5.1.3'])
@@ -75,6 +78,9 @@ def delete_configs(tier):
     add(SHAPE, 'development/4.3', use_queue=False, qrefs=False)
     add(SHAPE, 'development/4.3', qrefs=True)                        # empty queue branch exists
     add(SHAPE, 'feature/x', qrefs=False)
+    for c in (dict(C[0]), dict(C[5]), dict(C[9])):
+        c['reject'] = True
+        C.append(c)
     return C
 
 
@@ -95,6 +101,8 @@ def world(ctx, c):
     refs.append('feature/unrelated')
     repo = SymRepo(ctx, refs, len(refs) + 1, 6, tags=c['tags'])
     repo.log_cut = True
+    if c.get('reject'):
+        repo.reject_refs = 'all'       # the server may refuse any single ref / tag
     ctx.assume(symgit.status_domain(repo, repo.W))
     GF.assume_inclusion(ctx, repo, shape)
     host = GF.Host(repo, prs, ctx)
@@ -190,8 +198,19 @@ def delete_oracle(c, repo, out, prs):
     k = GF.parse_dest(victim)
     ops = [o for o in repo.remote_ops if o['kind'] in ('update', 'delete', 'tag')]
     refusing = out in ('JobFailure', 'NothingToDo')
-    conds.append(('a refusing delete-branch job touched the remote',
-                  z3.BoolVal(not (refusing and ops))))
+    deleted0 = victim in repo.pre_remote and victim not in repo.remote
+    if refusing and ops:
+        kinds = sorted(set('tag' if o['kind'] == 'tag' else ('queue branch' if o['ref'].startswith('q/')
+                                                               else o['ref']) for o in ops))
+        if deleted0:
+            lab = 'a failing delete-branch job deleted the branch all the same'
+        elif repo.refused:
+            lab = ('delete-branch is not transactional: the server refused %s after %s had been pushed'
+                   % ('the tag' if any(r.startswith('tag:') for r in repo.refused) else 'the branch deletion',
+                      ' and '.join('the ' + k if k in ('tag', 'queue branch') else k for k in kinds)))
+        else:
+            lab = 'a refusing delete-branch job touched the remote'
+        conds.append((lab, z3.BoolVal(False)))
     deleted = victim in repo.pre_remote and victim not in repo.remote
     queued_on = bool(prs) and victim in GF.targets(shape, prs[0].dst)
     live_stab = bool(k) and k[0] == 'dev' and any(
@@ -214,10 +233,11 @@ def delete_oracle(c, repo, out, prs):
                                         o['ref'] == 'q/' + GF.version_of(victim))]
         conds.append(('delete-branch changed other refs', z3.BoolVal(not other)))
     else:
-        conds.append(('nothing deleted but the remote changed', z3.BoolVal(not ops)))
+        if not refusing:
+            conds.append(('nothing deleted but the remote changed', z3.BoolVal(not ops)))
         # the statement: refuses only for queued PRs / live stab (or: no such branch / archived)
         legit = (not k) or victim not in repo.pre_remote or (queued_on and c['use_queue']) or \
-            live_stab or archived
+            live_stab or archived or bool(repo.refused)
         conds.append(('delete-branch refused although nothing is queued on the branch and no '
                       'stabilization branch is live', z3.BoolVal(bool(legit))))
     return conds
@@ -310,7 +330,8 @@ def real_outcome(c, w):
     GF.silence_all()
     prs = [PR(1, 'feature/a', c['queued'] if isinstance(c.get('queued'), str) else 'development/4.3')] \
         if c.get('queued') else []
-    wr = RealWorld(w['anc'], w['refs'], w.get('tags'))
+    wr = RealWorld(w['anc'], w['refs'], w.get('tags'),
+                   reject=[r for r, b in w.get('rejected', {}).items() if b])
     try:
         host = RealHost(wr, w['status'], prs)
         repo = wr.repository()
@@ -327,11 +348,14 @@ def real_outcome(c, w):
                 from bert_e.jobs.delete_branch import DeleteBranchJob, delete_branch
                 job, berte = make_job(DeleteBranchJob, repo, host, {'branch': c['victim']}, c['use_queue'])
                 fn = delete_branch
+            from bert_e.lib import git as G
             try:
                 fn(job)
                 out = 'returned'
             except (ex.JobSuccess, ex.JobFailure, ex.NothingToDo) as e:
                 out = type(e).__name__
+            except G.PushFailedException:
+                out = 'PushFailed'
         finally:
             try:
                 repo.delete()
@@ -353,7 +377,8 @@ def replay(data):
     c, w, label = data['cfg'], data['world'], data['label']
     prs = [PR(1, 'feature/a', c['queued'] if isinstance(c.get('queued'), str) else 'development/4.3')] \
         if c.get('queued') else []
-    wr = RealWorld(w['anc'], w['refs'], w.get('tags'))
+    wr = RealWorld(w['anc'], w['refs'], w.get('tags'),
+                   reject=[r for r, b in w.get('rejected', {}).items() if b])
     try:
         host = RealHost(wr, w['status'], prs)
         repo = wr.repository()
@@ -389,7 +414,10 @@ def replay(data):
         post = wr.heads()
         post_tags = wr.tag_refs()
         changed = post != pre or post_tags != pre_tags
-        if 'refusing' in label or 'nothing pushed' in label or 'nothing deleted' in label:
+        if label.startswith('a failing delete-branch job deleted'):
+            return out == 'JobFailure' and c['victim'] not in post
+        if 'refusing' in label or 'nothing pushed' in label or 'nothing deleted' in label or \
+                label.startswith('delete-branch is not transactional'):
             return out in ('JobFailure', 'NothingToDo') and changed
         if 'refused although' in label:
             return out == 'JobFailure' and not changed
@@ -450,7 +478,7 @@ def check(rep):
     outcomes = {}
     seen = set()
     for c, results, st in outs:
-        name = '%s %s' % (c['kind'], c.get('new') or c.get('victim') or '')
+        name = '%s %s%s' % (c['kind'], c.get('new') or c.get('victim') or '', ' +refusals' if c.get('reject') else '')
         rep.add_stats(st, name + (' queued' if c.get('queued') else '') +
                       ('' if c['use_queue'] else ' no-queue') + (' tags=%s' % c['tags'] if c['tags'] else ''))
         for _, r in results:
